@@ -129,6 +129,12 @@ pub fn features_t(thorough: bool) -> Vec<gherkin::Feature> {
                         // rows of an outline with two differently tagged `Examples:` blocks, as
                         // `parser::Basic` hands them over (each row carries its own block's tags
                         // and still knows all blocks of its outline)
+                        if s1 == 0 && s2 == 1 {
+                            // more tags than any fixed-size scratch space would hold: the deciding
+                            // tag comes last in the union
+                            f.tags = (1..=5).map(|k| format!("t{k}")).chain(f.tags.clone()).collect();
+                            f.rules[0].tags = (6..=9).map(|k| format!("t{k}")).chain(f.rules[0].tags.clone()).collect();
+                        }
                         let rows = outline_rows(s2, s1, s3);
                         f.scenarios.extend(rows.iter().cloned());
                         f.rules[1].scenarios.extend(rows);
